@@ -86,6 +86,9 @@ type respClient struct {
 	// SendAfter > 0: when the drain is over the client sends one more message of about that many bytes (what
 	// the response left behind - packet size, queue state - is used by the next request).
 	SendAfter int
+	// QueueBefore > 0: after its request the client queues that many bytes of a next message (not sent) before it
+	// reads the response.
+	QueueBefore int
 	// MaxErrs: the drain gives up after this many errors in a row (default 4).
 	MaxErrs int
 	// Logical: the exchange runs on a logical channel (set up with SETUP / PROTACK) instead of channel 0.
@@ -311,6 +314,9 @@ func runResp(cfg simrt.Config, d respDelivery, c respClient) *respResult {
 		if err := ch.SendPackage(ctx, &tds.LanguagePackage{Cmd: "q"}); err != nil {
 			res.SendErr = err.Error()
 			return
+		}
+		if c.QueueBefore > 0 {
+			_ = ch.QueuePackage(ctx, &tds.LanguagePackage{Cmd: strings.Repeat("b", c.QueueBefore)})
 		}
 		if len(c.PollAt) > 0 {
 			for _, at := range c.PollAt {
